@@ -3,7 +3,7 @@
 # be reported. Each runs in its own scratch worktree (bin/vcheck -repo <wt> -all), 2 at a time.
 cd /verif
 export GOFLAGS=-mod=mod GOPROXY=off GOSUMDB=off GOTOOLCHAIN=local
-out=/verif/out/refcorpus; rm -rf $out; mkdir -p $out
+out=${OUTDIR:-/verif/out/refcorpus}; rm -rf $out; mkdir -p $out
 one() {
   id=$1
   wt=/tmp/refwt-$id
@@ -12,7 +12,7 @@ one() {
   if ! git -C $wt apply /verif/refactorings/$id/patch.diff 2>/dev/null; then
     if ! git -C $wt apply -3 /verif/refactorings/$id/patch.diff >/dev/null 2>&1; then echo "$id PATCH-DOES-NOT-APPLY"; git -C /repo worktree remove --force $wt; return; fi
   fi
-  bin/vcheck -repo $wt -all -out $out/$id -evidence-dir $out/$id/evidence > $out/$id.log 2>&1
+  ${VCHECK:-bin/vcheck} -repo $wt -all -out $out/$id -evidence-dir $out/$id/evidence > $out/$id.log 2>&1
   rc=$?
   git -C /repo worktree remove --force $wt >/dev/null 2>&1; rm -rf $wt
   n=$(grep -c '^VIOLATION' $out/$id.log)
